@@ -175,7 +175,12 @@ class C01(Prop):
     def generate(self, rng, n, deep=False):
         yield {"kind": "selftest", "seed": rng.randint(0, 10 ** 6)}
         for _ in range(n):
-            yield {"kind": "roundtrip", "inst": self.cls_gen(rng)}
+            iolib._exotic[0] = True          # fields may contain splitlines()-only boundaries: legal in a file
+            try:
+                inst = self.cls_gen(rng)
+            finally:
+                iolib._exotic[0] = False
+            yield {"kind": "roundtrip", "inst": inst}
 
     def run_impl(self, case):
         if case["kind"] == "selftest":
